@@ -417,10 +417,9 @@ def bool_fn_truth(prog, body, leaf, depth=0):
 PERM_BITS = {1: "R", 2: "W", 4: "X"}   # procfs MMPermissions (bitflags): READ, WRITE, EXECUTE
 
 
-def rule_plausible_stack(ctx):
+def rule_plausible_stack(ctx, R="C06/plausible-stack"):
     """get_stack_info accepts a mapping as (part of) a stack through may_be_stack: readable OR writable, as Breakpad does —
     a read-only mapping that holds the stack pointer is 'readable memory' in the sense of the property"""
-    R = "C06/plausible-stack"
     b = ctx.body(R, "linux::ptrace_dumper::PtraceDumper::may_be_stack")
     if b is None:
         return
@@ -613,8 +612,7 @@ def rule_descriptor_agrees(ctx):
         ctx.check(x[0] == "field" and x[2] == "stack" and root(x[1]) == ("param", 4), R, "pushed=thread.stack", b.where(pb), "the memory-list entry is the thread record's own stack descriptor", "pushed descriptor is %s" % show(x)[:100])
 
 
-def rule_page_start(ctx):
-    R = "C06/page-start"
+def rule_page_start(ctx, R="C06/page-start"):
     b = ctx.body(R, "linux::ptrace_dumper::PtraceDumper::get_stack_info")
     if b is None:
         return
